@@ -195,6 +195,8 @@ class Run(object):
     def execute(self):
         run = self
         net = fakenet.FakeNet()
+        # asyncio's line limit (64 KiB by default) scaled down for the over-long-line scenarios
+        net.reader_limit = self.sc.get('reader_limit', 2 ** 16) if hasattr(self, 'sc') else 2 ** 16
         net.add_host('h', HOST_IP)
 
         class Ctl(fakenet.BaseServer):
